@@ -152,9 +152,26 @@ def _scan(q, f, funcs, by_name, result):
                     hit(R2(c.func.value, al)[0], c.lineno, f".{c.func.attr}()")
                     for a in list(c.args) + [k.value for k in c.keywords]:
                         hold(al, c.func.value, R2(a, al))          # xs.append(p): xs now holds p
-                for k in c.keywords:
-                    if k.arg == "out":
-                        hit(R2(k.value, al)[0], c.lineno, "out=")
+                from .exprnorm import _out_arguments
+                for o_ in _out_arguments(c):
+                    # out=, the positional out of numpy functions / array methods, np.copyto / putmask / place / put (first argument)
+                    hit(R2(o_, al)[0], c.lineno, "written by " + (call_name(c) or ast.unparse(c.func))[:30] + "()")
+                # setattr(self, name, v): the instance keeps v
+                if isinstance(c.func, ast.Name) and c.func.id == "setattr" and len(c.args) == 3 and isinstance(c.args[0], ast.Name) \
+                        and c.args[0].id == "self":
+                    for p_ in R2(c.args[2], al)[0] - {"self"}:
+                        escapes.setdefault(p_, []).append((c.lineno, "self." + (c.args[1].value if isinstance(c.args[1], ast.Constant) else "?")))
+                # a callee that is not a plain name - `(f if c else g)(..)`, `functools.partial(f, a)(b)`, `table[k](..)`: every function
+                # of the module that the callee expression mentions may be the one that runs, with any of the arguments in sight
+                if not isinstance(c.func, (ast.Name, ast.Attribute)) or (isinstance(c.func, ast.Attribute) and isinstance(c.func.value, ast.Call)):
+                    mentioned = {x.id for x in ast.walk(c.func) if isinstance(x, ast.Name) and x.id in by_name}
+                    in_sight = list(c.args) + [k.value for k in c.keywords] + \
+                        [a for x in ast.walk(c.func) if isinstance(x, ast.Call) for a in list(x.args) + [k.value for k in x.keywords]]
+                    for g_ in sorted(mentioned):
+                        for callee in by_name.get(g_, []):
+                            if any(k_ != "__returns__" for k_ in result.get(callee, {})):
+                                for a in in_sight:
+                                    hit(R2(a, al)[0], c.lineno, f"{g_}() (called indirectly) changes a parameter")
                 # calls of functions of this module that change their parameter
                 cn = call_name(c) or ""
                 short = cn.split(".")[-1]
@@ -172,8 +189,24 @@ def _scan(q, f, funcs, by_name, result):
                         if kw.arg in result.get(callee, {}) and kw.arg != "__returns__":
                             hit(R2(kw.value, al)[0], c.lineno, f"{short}() changes its parameter {kw.arg}")
 
+    def note_escape(t, pr, line):
+        """`self.a = v`, `self.__dict__["a"] = v` (in any assignment shape): the instance keeps the object v may be"""
+        b = _base(t)
+        if not (isinstance(b, ast.Name) and b.id == "self"):
+            return
+        if isinstance(t, ast.Attribute) and t.value is b:
+            what = "self." + t.attr
+        elif isinstance(t, ast.Subscript) and isinstance(t.value, ast.Attribute) and t.value.value is b and t.value.attr == "__dict__":
+            what = "self." + (t.slice.value if isinstance(t.slice, ast.Constant) and isinstance(t.slice.value, str) else "?")
+        else:
+            return
+        for p_ in pr[0] - {"self"}:
+            escapes.setdefault(p_, []).append((line, what))
+
     def store_into(t, al, line, what, value_pr=None):
         """`t` is a Subscript / Attribute target: the object that changes is what `t.value` may be"""
+        if value_pr is not None:
+            note_escape(t, value_pr, line)
         b = _base(t)
         if not (isinstance(t, ast.Attribute) and isinstance(b, ast.Name) and b.id in ("self", "cls") and t.value is b and "self" not in ps[:1]):
             if not (isinstance(t, ast.Attribute) and isinstance(b, ast.Name) and b.id in ("self", "cls") and t.value is b):
@@ -229,9 +262,7 @@ def _scan(q, f, funcs, by_name, result):
                         b = _base(t)
                         if isinstance(b, ast.Name) and not (isinstance(t, ast.Attribute) and b.id in ("self", "cls")):
                             hit(R2(t.value, al)[0], st.lineno, "store into " + ast.unparse(t)[:30])
-                        if isinstance(t, ast.Attribute) and isinstance(b, ast.Name) and b.id == "self" and t.value is b:
-                            for p_ in new[0] - {"self"}:
-                                escapes.setdefault(p_, []).append((st.lineno, "self." + t.attr))
+                        note_escape(t, new, st.lineno)
                         hold(al, t.value, new)          # the container / object now holds the value: `box[0] = p`
                     elif isinstance(t, (ast.Tuple, ast.List)):
                         for x in t.elts:
